@@ -460,6 +460,15 @@ def locate(fn, loc):
         return assign_value(fn, loc[1], loc[2])
     if kind == "arg":
         return call_arg(fn, loc[1], loc[2], loc[3])
+    if kind == "call_has_arg":
+        # ("call_has_arg", callee suffix, argument source, nth): is `argument` among the positional arguments of the nth
+        # call to `callee` in the function?  -> a boolean constant.  Fails closed when there is no such call.
+        hits = [n for n in ast.walk(fn) if isinstance(n, ast.Call) and ast.unparse(n.func).endswith(loc[1])]
+        hits.sort(key=lambda n: (n.lineno, n.col_offset))
+        if len(hits) <= loc[3]:
+            raise Fail("%s: no call to %s" % (fn.name, loc[1]), fn)
+        c = hits[loc[3]]
+        return ast.copy_location(ast.Constant(value=any(ast.unparse(a) == loc[2] for a in c.args)), c)
     if kind == "compif":
         # first `if` condition of the nth list/set comprehension or generator in the function
         comps = [n for n in ast.walk(fn) if isinstance(n, (ast.ListComp, ast.SetComp, ast.GeneratorExp))]
